@@ -69,7 +69,7 @@ def fresh_name(stem):
 
 def _feasible(pc, cond):
     from . import z3back
-    key = (tuple(sp.srepr(p) for p in pc), sp.srepr(cond))
+    key = (tuple(pc), cond)      # sympy expressions hash structurally
     r = _FEAS_CACHE.get(key)
     if r is None:
         r = z3back.satisfiable(list(pc) + [cond], timeout_ms=3000)
@@ -86,8 +86,14 @@ def branch(cond) -> bool:
     if cond is sp.false:
         return False
     ncond = sp.Not(cond)
-    t = _feasible(c.pc, cond)
-    f = _feasible(c.pc, ncond)
+    # a condition that shares no symbol with the path condition is independent of it: with the path condition
+    # satisfiable (we are on it), pc /\ cond is satisfiable iff cond is -- a query z3 answers at once
+    pc_syms = set()
+    for x in c.pc:
+        pc_syms |= getattr(x, "free_symbols", set())
+    pc = [] if not (cond.free_symbols & pc_syms) else c.pc
+    t = _feasible(pc, cond)
+    f = _feasible(pc, ncond)
     if t is False and f is False:
         # the path condition itself is infeasible; just pick a side
         c.pc.append(cond)
@@ -119,11 +125,13 @@ class PathResult:
         return f"<Path {self.kind} dec={self.decisions} pc={self.pc}>"
 
 
-def explore(run, assumptions=(), max_paths=400, catch=(Exception,), only=None):
+def explore(run, assumptions=(), max_paths=400, catch=(Exception,), only=None, expand=False):
     """Run `run()` along every feasible path.  Returns list[PathResult].
 
     `run` may raise: exceptions listed in `catch` end the path with kind='raise'
-    (OutOfReach and internal errors always propagate)."""
+    (OutOfReach and internal errors always propagate).  `only` restricts the exploration to the given decision
+    prefixes; with `expand` every path that extends one of them is explored (the alternatives found beyond a prefix all
+    extend it), otherwise exactly one path per prefix."""
     global CUR
     results = []
     work = [[]] if only is None else [list(x) for x in reversed(only)]
@@ -145,6 +153,6 @@ def explore(run, assumptions=(), max_paths=400, catch=(Exception,), only=None):
         finally:
             CUR = prev
         results.append(PathResult(ctx.pc, ctx.decisions, kind, val, exc, ctx.notes, ctx.effects))
-        if only is None:
+        if only is None or expand:
             work.extend(ctx.pending)
     return results
